@@ -47,34 +47,23 @@ Definition skeleton (k : skel) : cmd :=
   | KInitTuckerN N => sk_initialize_tucker_gen N
   end.
 
-(* objects reachable from the in-place arguments (fuel = heap size suffices: each round adds the children) *)
-Definition children (h : heap) (o : nat) : list nat :=
-  match nth_error h o with
-  | Some (OCell it) => flat_map (fun r => match r with RNull => [] | RObj o' _ => [o'] end) it
-  | _ => []
-  end.
-Definition memb (x : nat) (l : list nat) : bool := existsb (Nat.eqb x) l.
-Fixpoint reach_set (fuel : nat) (h : heap) (cur : list nat) : list nat :=
-  match fuel with
-  | O => cur
-  | S f => reach_set f h (cur ++ filter (fun o => negb (memb o cur)) (flat_map (children h) cur))
-  end.
-Definition inplace_region (h : heap) (args : list ref) (flags : list bool) : list nat :=
-  reach_set (length h) h
-    (flat_map (fun p => match p with (RObj o _, true) => [o] | _ => [] end) (combine args flags)).
+(* region reachable from the in-place arguments: Model.Effects.inplace_region, accepted only together with its closure
+   certificate region_closed (then it is exactly `reach`: Props C15_region_exact) *)
+Definition region_ok (h : heap) (args : list ref) (flags : list bool) (observed : list nat) : bool :=
+  region_closed h (inplace_region h args flags) && forallb (fun o => memb o (inplace_region h args flags)) observed.
 
 Definition case := (nat * option skel * list bool * list ref * heap * list nat)%type.
 
 Definition agree (c : case) : bool :=
   let '(_, k, flags, args, h, observed) := c in
   match k with
-  | None => forallb (fun o => memb o (inplace_region h args flags)) observed
+  | None => region_ok h args flags observed
   | Some s =>
       (* a modelled entry point: the skeleton's footprint is the prediction.  When the skeleton is safe for these
          flags the prediction lies inside the in-place region by C15_frame_inplace; a skeleton that models a
          known defect of the code as it is (not safe) predicts the writes outside it. *)
       nat_list_eqb (footprint (skeleton s) args h) observed &&
-      (negb (safe_with flags (skeleton s)) || forallb (fun o => memb o (inplace_region h args flags)) observed)
+      (negb (safe_with flags (skeleton s)) || region_ok h args flags observed)
   end.
 Definition ident (c : case) : nat := let '(i, _, _, _, _, _) := c in i.
 Definition failing := failing_ids agree ident.
